@@ -308,10 +308,17 @@ def run_obligations(obls, texts, unit_dir, jobs=None, log=None):
 
     def work(o):
         r = run_one(paths[o.text_key], o.fn_pattern, rlimit=o.rlimit)
-        if r['status'] == 'undecided' and 'timeout' not in r.get('reason', ''):
-            r2 = run_one(paths[o.text_key], o.fn_pattern, rlimit=(o.rlimit or 10) * 6)
-            r2['retried'] = True
+        # Resource-limit outcomes are solver instability, not verdicts: retry as a small portfolio (other Z3 random seeds,
+        # then a larger limit).  Any successful run is a proof; a failed proof obligation is reported as such at once.
+        base = o.rlimit or 10
+        for (rl, seed) in ((base * 3, 1), (base * 3, 2), (base * 8, None)):
+            if not (r['status'] == 'undecided' and 'timeout' not in r.get('reason', '')):
+                break
+            extra = ['--smt-option', 'smt.random_seed=%d' % seed] if seed is not None else []
+            r2 = run_one(paths[o.text_key], o.fn_pattern, rlimit=rl, extra=extra)
+            r2['retried'] = (r.get('retried') or 0) + 1
             r2['smt_ms'] += r['smt_ms']
+            r2['wall_s'] = round(r2['wall_s'] + r['wall_s'], 2)
             r = r2
         r['file'] = paths[o.text_key]
         o.result = r
